@@ -281,6 +281,13 @@ def simulate(sh, cfg, streams):
   except Exception as e:
     err = (type(e).__name__, str(e)[:200], traceback.format_exc()[-600:])
   image = bytes(top.mem.read_mem(BASE - 8, min(4 * cfg["nwords"] + 24, MEMSZ - (BASE - 8))))
+  if cfg["model"] == "cl" and err is None:
+    # a consumer that KEEPS the response objects of the CL memory (a scoreboard): each still holds what it held when it arrived
+    for i in range(n):
+      for k, (obj, val) in enumerate(getattr(top.sinks[i], "kept", [])):
+        if not (obj == val):
+          err = ("ResponseObjectChangedAfterDelivery", f"port {i}, response {k}: delivered {val}, the same object later reads {obj}", "")
+          break
   return ev, cyc, bound, err, image
 
 
